@@ -354,7 +354,7 @@ PROPS = {
                  "injective parent / label hashes and leaf-interior domain separation (hypotheses, not axioms), mem_ok against T's hash proves a node of T with that label and hash, and "
                  "the verifier's non-membership facts prove that the queried label is NOT a leaf of T (also for an anchor at the root).",
         "trusted": ["T4 configuration hashes are deterministic functions of their byte inputs (uninterpreted); collision resistance enters only as explicit hypotheses of the meaning lemmas, not the contracts",
-                    "the meaning lemmas model tries in which every interior node has two children (a root with a single child - all leaves sharing the first bit - is not modelled); the meaning lemma speaks of proofs with k >= 1 sibling proofs - for k = 0 the contract itself (mem_ok, since the repair of D15) says the proof's label is the root label",
+                    "the meaning lemmas model tries in which every interior node has two children (a root with a single child - all leaves sharing the first bit - is not modelled); (since the repair of D15 the label of a proof WITHOUT sibling proofs is bound too: mem_ok demands the fold to end at the root label, and lemma_membership_sound_at_root gives the node of T with the proof's label for every k >= 0)",
                     "the label operations both sides rely on (get_bit_at, get_prefix, is_prefix_of, get_longest_common_prefix, get_prefix_ordering, empty_label) are proved equal to their bit-string meaning in unit node_label, which this check runs too"],
         "assumed": [],
     },
